@@ -104,7 +104,8 @@ BlindEdit ==
 ShapeBadCommit ==
   /\ pc = "commit"
   /\ LET M == Len(objs[1].cms) IN
-     \/ \E j \in {1, 2, M + 2} : Step(Tamper(1, {j}, 0))        \* s^, m^_1, m^_M
+     \* s^, m^_1 and the last scalar (field codes above 100 name points: the last scalar only while M + 2 <= 100)
+     \/ \E j \in {1, 2, IF M + 2 <= 100 THEN M + 2 ELSE 2} : Step(Tamper(1, {j}, 0))
      \/ Step(Tamper(1, {101}, 0))
   /\ pc' = "badcommit"
 ShapeSignBad == /\ pc = "badcommit" /\ Step(BlindSignA(1, objs[1].s, NObj, << 1 >>, << << 1 >> >>)) /\ pc' = "done"
